@@ -194,6 +194,9 @@ pub fn replay(path: &str) -> i32 {
         let path: Vec<String> = r["path"].as_array().map(|a| a.iter().filter_map(|x| x.as_str().map(|s| s.to_string())).collect()).unwrap_or_default();
         return c07::replay(script, &path);
     }
+    if r["engine"] == "c05" {
+        return c05::replay_case(r["case"].as_str().unwrap_or(""));
+    }
     if r["engine"] == "net" && prop == "C13" {
         let script = r["script"].as_str().unwrap_or("");
         let path: Vec<String> = r["path"].as_array().map(|a| a.iter().filter_map(|x| x.as_str().map(|s| s.to_string())).collect()).unwrap_or_default();
